@@ -48,6 +48,7 @@ func propC05(r *kernel.Run) {
 	loader := tp.Draw(4) != 0
 	backend := Pick2(tp, "inmem", "storeonce", "file")
 	w := NewWorld(r, "server", backend, tp.Draw(2) == 1, loader)
+	w.St.EmptyOnMiss = loader && tp.Draw(2) == 0 // a NodeIdLoader may answer an unknown node ID with an empty set instead of ErrNotFound
 	if _, err := rotation.RotateRootCertificates(w.Ctx, w.Storage, w.Opts()...); err != nil {
 		r.HarnessErr("bootstrap roots: %v", err)
 	}
